@@ -71,10 +71,14 @@ class DBusMessage :
 #            if not a.startswith('raw'):
 #                print '    %s = %s' % (a.ljust(15), str(getattr(self,a)))
 
-    def _marshal(self, newSerial=True, oobFDs=None):
+    def _marshal(self, newSerial=True, oobFDs=None, reuseBody=False):
         """
         Encodes the message into binary format. The resulting binary message is
         stored in C{self.rawMessage}
+
+        @param reuseBody: for a message obtained from L{parseMessage}: keep
+            the body bytes exactly as they were received instead of encoding
+            C{self.body} again (which would retype the contents of variants)
         """
         flags = 0
 
@@ -88,11 +92,14 @@ class DBusMessage :
         _headerAttrs = self._headerAttrs
 
         # marshal body before headers to know if the 'unix_fd' header is needed
-        if self.signature:
+        if reuseBody:
+            binBody = self.rawBody
+        elif self.signature:
             binBody = b''.join(
                 marshal.marshal(
                     self.signature,
                     self.body,
+                    lendian=self.endian == ord('l'),
                     oobFDs=oobFDs
                 )[1]
             )
@@ -391,6 +398,8 @@ def parseMessage(rawMessage, oobFDs):
     m.rawPadding = rawMessage[nheader: nheader + npad]
 
     m.rawBody = rawMessage[nheader + npad:]
+
+    m.endian = hval[0]
 
     m.serial = hval[5]
 
